@@ -43,6 +43,13 @@ impl Program {
                 units.push(Unit { name: name.clone(), text: format!("typedef {tn} {name};"), needs: vec![t], is_template: false, opaque: false, kind: "typedef" });
                 continue;
             }
+            if (14..17).contains(&choice) {
+                // a vector typedef (by-value member candidates): the longer ones are over-aligned (> 32), which is
+                // where the derive analyses get conservative about Default / Debug / PartialEq / Hash
+                let (elem, bytes) = *rng.pick(&[("char", 8usize), ("int", 16), ("float", 32), ("char", 64), ("short", 128), ("double", 64)]);
+                units.push(Unit { name: name.clone(), text: format!("typedef {elem} {name} __attribute__((vector_size({bytes})));"), needs: vec![], is_template: false, opaque: false, kind: "typedef" });
+                continue;
+            }
             if choice < 14 && !templates.is_empty() {
                 // alias template over an earlier class template, and a class template deriving from one
                 let t = *rng.pick(&templates);
@@ -160,7 +167,8 @@ impl Program {
             }
             let opaque = rng.chance(1, 8);
             let ann = if opaque { "/** <div rustbindgen opaque></div> */\n" } else { "" };
-            let kw = if is_union { "union" } else if bases.is_empty() && !body.contains("virtual") && rng.chance(1, 9) { "struct __attribute__((packed))" } else { "struct" };
+            let kw = if is_union { "union" } else if bases.is_empty() && !body.contains("virtual") && rng.chance(1, 9) { "struct __attribute__((packed))" }
+                else if rng.chance(1, 14) { "struct __attribute__((aligned(64)))" } else { "struct" };
             let bl = if bases.is_empty() { String::new() } else { format!(" : {}", bases.iter().map(|b| format!("public {}", units[*b].name)).collect::<Vec<_>>().join(", ")) };
             needs.sort();
             needs.dedup();
